@@ -258,6 +258,35 @@ theorem apply_sites_as_modelled :
        "call_out.c:call_out:apply:cop->function.s",
        "call_out.c:call_out:call_function_pointer:cop->function.f"] := by decide
 
+/-- `preloadObjects` / `preloadFiles`: epilog() under its own recovery point (error: restore, pop, return - nothing is
+    preloaded); then the files under a second recovery point IN FRONT of the loop, whose error branch does `ix++` (the
+    failing file is not retried, the next one is not skipped) -/
+theorem preload_as_modelled :
+    NV.Gen.C09.preloadStmts =
+      ["save_context",
+       "setjmp",
+       "restore",
+       "pop_context",
+       "return",
+       "epilog",
+       "pop_context",
+       "return",
+       "return",
+       "save_context",
+       "setjmp",
+       "restore",
+       "next_file",
+       "loop",
+       "preload",
+       "pop_context",
+       "prefiles = ret->u.arr;",
+       "if ((prefiles == 0) || (prefiles->size < 1))",
+       "prefiles->ref++;",
+       "ix = 0;",
+       "ix++;",
+       "for (; ix < prefiles->size; ix++)",
+       "if (prefiles->item[ix].type != T_STRING)"] := by decide
+
 /-- every source shape of the repaired code that the model mirrors is present (all_users guard, re-validation through
     the object, recovery point before the start-up steps, load-average clamp, connect() under its own recovery point,
     pending events cleared when a record is freed) -/
